@@ -111,8 +111,8 @@ def render(x):
 # --------------------------------------------------------------------------------------------------------------------
 # container kinds
 # --------------------------------------------------------------------------------------------------------------------
-CONTAINERS_QUICK = ('nd', 'list', 'view', 'tuple', 'readonly')
-CONTAINERS_THOROUGH = ('nd', 'list', 'view', 'tuple', 'readonly', 'forder', 'negstride', 'f32')
+CONTAINERS_QUICK = ('nd', 'list', 'view', 'tuple', 'readonly', 'qobj')
+CONTAINERS_THOROUGH = ('nd', 'list', 'view', 'tuple', 'readonly', 'forder', 'negstride', 'f32', 'qobj', 'qobj.copy')
 SCALES_THOROUGH = (1.0, 1e-3, 1e3)      # magnitude of the non-normalised inputs (non-unit quaternions, axes, acc / mag samples, reference vectors)
 
 
@@ -138,6 +138,17 @@ def contain(x, kind):
         return np.array(x[..., ::-1], copy=True)[..., ::-1]
     if kind == 'f32':
         return x.astype(np.float32) if x.dtype == np.float64 else np.array(x, copy=True)
+    if kind in ('qobj', 'qobj.copy'):
+        # the library's own array classes as the caller-owned container: a 4-vector as an ahrs.Quaternion object (as built, or as numpy
+        # hands it back from .copy()), a proper 3x3 rotation as an ahrs.DCM object; anything else as a plain copy
+        from ahrs import Quaternion, DCM
+        if x.dtype == np.float64 and x.shape == (4,) and np.all(np.isfinite(x)) and np.linalg.norm(x) > 0:
+            o = Quaternion(np.array(x, copy=True), versor=False)
+            return o.copy() if kind == 'qobj.copy' else o
+        if x.dtype == np.float64 and x.shape == (3, 3) and np.all(np.isfinite(x)) and np.allclose(x @ x.T, np.eye(3), atol=1e-12) and abs(np.linalg.det(x) - 1) < 1e-12:
+            o = DCM(np.array(x, copy=True))
+            return o.copy() if kind == 'qobj.copy' else o
+        return np.array(x, copy=True)
     raise ValueError(kind)
 
 
